@@ -1,6 +1,466 @@
-//! C02 — not built yet.
-use vcommon::Args;
+//! C02 — encoding then decoding returns the original value.
+//!
+//! Space: C01's space (every type with ≤ N signature nodes, every value of `rv::values`, both byte
+//! orders, start offsets), in D-Bus **and** GVariant format (GVariant additionally with maybe
+//! types), along the encode→decode route pairs of zvx.rs:
+//!   dyn→dyn, dyn→serde, serde→serde, serde→dyn, variant→variant, typed→typed
+//! (typed = the static bank: tuples, `Vec`, `HashMap`/`BTreeMap`, derived structs, `serde_repr`
+//! enums, `Option`). `Option<T>` in D-Bus format needs zvariant's `option-as-array` feature; those
+//! cases run in the `gv-oaa` build of this binary (spawned as a child, counts merged).
+//! Oracle: decoded == original (floats bitwise, maps as sets) and consumed == encoded length.
 
-pub fn main(_args: &Args) -> i32 {
-    vcommon::machinery_failure("C02: check not built yet")
+use std::collections::BTreeMap;
+
+use serde_json::json;
+use vcommon::{hex, Args, Report, Violation};
+
+use crate::{
+    rv::{self, Ty, RV},
+    zvx::{self, Acc},
+};
+
+const CAP: usize = 64;
+
+fn kind(ty: &Ty) -> &'static str {
+    match ty {
+        Ty::Array(_) => "array",
+        Ty::Dict(..) => "dict",
+        Ty::Struct(_) => "struct",
+        Ty::V => "variant",
+        Ty::Maybe(_) => "maybe",
+        Ty::H => "fd",
+        Ty::S | Ty::O | Ty::G => "string-like",
+        _ => "fixed",
+    }
+}
+
+/// Is the GVariant encoding of this value zero bytes long? (empty array/dict, `nothing`, a
+/// one-member struct of such.)
+fn gv_zero_size(v: &RV) -> bool {
+    match v {
+        RV::Array(_, xs) => xs.is_empty(),
+        RV::Dict(_, _, xs) => xs.is_empty(),
+        RV::Maybe(_, None) => true,
+        RV::Struct(xs) => xs.len() == 1 && gv_zero_size(&xs[0]),
+        _ => false,
+    }
+}
+
+/// Does the value contain a non-empty array all of whose elements are zero bytes long in
+/// GVariant? (Such an array consists of framing offsets only.)
+fn has_array_of_empty(v: &RV) -> bool {
+    match v {
+        RV::Array(_, xs) => (!xs.is_empty() && xs.iter().all(gv_zero_size)) || xs.iter().any(has_array_of_empty),
+        RV::Dict(_, _, xs) => xs.iter().any(|(k, v)| has_array_of_empty(k) || has_array_of_empty(v)),
+        RV::Struct(xs) => xs.iter().any(has_array_of_empty),
+        RV::V(b) => has_array_of_empty(&b.1),
+        RV::Maybe(_, Some(x)) => has_array_of_empty(x),
+        _ => false,
+    }
+}
+
+struct Case<'a> {
+    ty: &'a Ty,
+    vidx: usize,
+    maybe: bool,
+    gv: bool,
+    be: bool,
+    off: usize,
+}
+
+impl Case<'_> {
+    fn replay(&self, route: &str, typed: Option<&str>) -> serde_json::Value {
+        json!({"sig": self.ty.sig(), "value_index": self.vidx, "maybe_types": self.maybe, "gvariant": self.gv,
+               "big_endian": self.be, "offset": self.off, "route": route, "typed": typed, "cap": CAP,
+               "option_as_array": cfg!(feature = "option-as-array")})
+    }
+    fn fmt(&self) -> &'static str {
+        if self.gv {
+            "gvariant"
+        } else {
+            "dbus"
+        }
+    }
+}
+
+/// Judge one encode→decode pair.
+#[allow(clippy::too_many_arguments)]
+fn judge(
+    acc: &mut Acc,
+    case: &Case<'_>,
+    route: &str,
+    typed: Option<&str>,
+    original: &RV,
+    encoded: &Result<Vec<u8>, String>,
+    decoded: impl FnOnce(&[u8]) -> Result<(RV, usize), String>,
+    verbose: bool,
+) {
+    acc.evals += 1;
+    let what = format!(
+        "{} {} value {} {} offset {} route {}{}",
+        case.fmt(),
+        original.ty().sig(),
+        original.show(),
+        if case.be { "BE" } else { "LE" },
+        case.off,
+        route,
+        typed.map(|t| format!(" as {t}")).unwrap_or_default()
+    );
+    let v = |clause: &str, detail: String| {
+        Violation::new(clause, detail, case.replay(route, typed))
+            .feat("format", case.fmt())
+            .feat("route", route)
+            .feat("kind", kind(&original.ty()))
+            .feat("array_of_zero_size_elements", has_array_of_empty(original))
+    };
+    let bytes = match encoded {
+        Ok(b) => b,
+        Err(e) => {
+            if verbose {
+                println!("route {route}: encode failed: {e}");
+            }
+            acc.outcome(&format!("{}:{route}:encode-error", case.fmt()));
+            acc.violation(
+                v("encode-fails", format!("{what}: the real encoder failed on a well-typed value: {e}"))
+                    .feat("error", zvx::err_class(e)),
+            );
+            return;
+        }
+    };
+    let dec = decoded(bytes);
+    if verbose {
+        println!(
+            "route {route}: encoded {} ({} bytes); decoded {:?}",
+            hex(bytes),
+            bytes.len(),
+            dec.as_ref().map(|(r, n)| (r.show(), *n))
+        );
+    }
+    match dec {
+        Err(e) => {
+            acc.outcome(&format!("{}:{route}:decode-error", case.fmt()));
+            acc.violation(
+                v("decode-fails", format!("{what}: encoded as {} but decoding failed: {e}", hex(bytes)))
+                    .feat("error", zvx::err_class(&e)),
+            );
+        }
+        Ok((back, consumed)) => {
+            let same = zvx::rv_same(&back, original);
+            if (!same || consumed != bytes.len()) && std::env::var_os("ZV_TRACE").is_some() {
+                eprintln!("TRACE {} {} {} -> {} [{}] consumed {}/{}", case.fmt(), route, original.ty().sig(), original.show(), back.show(), consumed, bytes.len());
+            }
+            if !same {
+                acc.violation(v(
+                    "value-differs",
+                    format!("{what}: encoded as {} and decoded as {}", hex(bytes), back.show()),
+                ));
+            }
+            if consumed != bytes.len() {
+                acc.violation(v(
+                    "consumed-differs",
+                    format!("{what}: encoded as {} ({} bytes) but decoding reports {consumed} consumed", hex(bytes), bytes.len()),
+                ));
+            }
+            acc.outcome(&format!(
+                "{}:{route}:{}",
+                case.fmt(),
+                if same && consumed == bytes.len() { "identity" } else { "differs" }
+            ));
+        }
+    }
+}
+
+struct Plan<'a> {
+    formats: &'a [bool],
+    endians: &'a [bool],
+    offsets: &'a [usize],
+    only_route: Option<&'a str>,
+    only_typed: Option<&'a str>,
+    /// run only bank entries whose Rust type involves `Option` (child mode)
+    option_only: bool,
+    verbose: bool,
+}
+
+fn run_value(
+    acc: &mut Acc,
+    ty: &Ty,
+    vidx: usize,
+    maybe: bool,
+    rv: &RV,
+    plan: &Plan<'_>,
+    bank: &BTreeMap<String, Vec<Box<dyn zvx::TypedOps>>>,
+) {
+    let has_maybe = ty.contains(&|t| matches!(t, Ty::Maybe(_)));
+    zvx::with_fds(|fds| {
+        let fdmap = |raw: i32| zvx::fd_index(fds, raw);
+        let norm = match zvx::normalize(rv, fds) {
+            Ok(n) => n,
+            Err(e) => vcommon::machinery_failure(&format!("C02: cannot build {}: {e}", rv.show())),
+        };
+        let value = rv::to_value(&norm, fds).expect("harness: to_value");
+        let as_variant = RV::V(Box::new((norm.ty(), norm.clone())));
+        let typed = bank.get(&ty.sig());
+        for &gv in plan.formats {
+            if has_maybe && !gv {
+                continue; // maybe types exist only in GVariant
+            }
+            for &be in plan.endians {
+                for &off in plan.offsets {
+                    let case = Case { ty, vidx, maybe, gv, be, off };
+                    let c = zvx::ctxt(gv, be, off);
+                    let want = |r: &str| !plan.option_only && plan.only_route.map(|o| o == r).unwrap_or(true);
+                    // encode once per encode route; the Data keeps the attached fds alive
+                    let e_dyn = if want("dyn>dyn") || want("dyn>serde") { Some(zvx::enc_dyn(&value, c)) } else { None };
+                    let e_serde =
+                        if want("serde>serde") || want("serde>dyn") { Some(zvx::enc_serde(rv, fds, c)) } else { None };
+                    let bytes_of = |e: &Option<Result<zvx::Encoded, String>>| match e {
+                        Some(Ok(e)) => Ok(e.bytes().to_vec()),
+                        Some(Err(e)) => Err(e.clone()),
+                        None => Err("not run".into()),
+                    };
+                    if let Some(e) = &e_dyn {
+                        let b = bytes_of(&e_dyn);
+                        if want("dyn>dyn") && zvx::dyn_decodable(ty) {
+                            judge(acc, &case, "dyn>dyn", None, &norm, &b, |_| zvx::dec_dyn(ty, &e.as_ref().unwrap().data, &fdmap), plan.verbose);
+                        }
+                        if want("dyn>serde") {
+                            judge(acc, &case, "dyn>serde", None, &norm, &b, |_| zvx::dec_serde(ty, &e.as_ref().unwrap().data, &fdmap), plan.verbose);
+                        }
+                    }
+                    if let Some(e) = &e_serde {
+                        let b = bytes_of(&e_serde);
+                        if want("serde>serde") {
+                            judge(acc, &case, "serde>serde", None, rv, &b, |_| zvx::dec_serde(ty, &e.as_ref().unwrap().data, &fdmap), plan.verbose);
+                        }
+                        if want("serde>dyn") && zvx::dyn_decodable(ty) {
+                            judge(acc, &case, "serde>dyn", None, rv, &b, |_| zvx::dec_dyn(ty, &e.as_ref().unwrap().data, &fdmap), plan.verbose);
+                        }
+                    }
+                    if want("variant>variant") {
+                        let e = zvx::enc_variant(&value, c);
+                        let b = e.as_ref().map(|e| e.bytes().to_vec()).map_err(|e| e.clone());
+                        judge(acc, &case, "variant>variant", None, &as_variant, &b, |_| zvx::dec_variant(&e.as_ref().unwrap().data, &fdmap), plan.verbose);
+                    }
+                    if plan.only_route.map(|o| o == "typed>typed").unwrap_or(true) {
+                        for ops in typed.into_iter().flatten() {
+                            if !(if gv { ops.gv_ok() } else { ops.dbus_ok() }) {
+                                continue;
+                            }
+                            if plan.option_only && !ops.name().contains("Option") {
+                                continue;
+                            }
+                            if plan.only_typed.map(|t| t != ops.name()).unwrap_or(false) {
+                                continue;
+                            }
+                            if let Some(t) = ops.encode(rv, c) {
+                                judge(acc, &case, "typed>typed", Some(ops.name()), &t.as_rv, &t.bytes, |b| ops.decode(b, c), plan.verbose);
+                            }
+                        }
+                    }
+                    if !plan.option_only {
+                        let lead_pad = !gv && off % ty.align() != 0;
+                        if ty.has_container() || lead_pad || (gv && off % 8 != 0) {
+                            acc.nontrivial.insert(vcommon::hash64(&(ty.sig(), vidx, gv, be, off)));
+                        }
+                    } else {
+                        acc.nontrivial.insert(vcommon::hash64(&("oaa", ty.sig(), vidx, gv, be, off)));
+                    }
+                }
+            }
+        }
+    })
+}
+
+fn corpus_values(ty: &Ty, cap: usize) -> Vec<RV> {
+    let mut capped = false;
+    rv::values(ty, &rv::Domain::standard(cap), &mut capped)
+}
+
+fn replay(args: &Args, path: &str) -> i32 {
+    let art = vcommon::load_replay(path);
+    let r = &art["replay"];
+    let (Some(sig), Some(vidx), Some(gv), Some(be), Some(off)) = (
+        r["sig"].as_str(),
+        r["value_index"].as_u64(),
+        r["gvariant"].as_bool(),
+        r["big_endian"].as_bool(),
+        r["offset"].as_u64(),
+    ) else {
+        vcommon::machinery_failure("C02 replay: malformed artefact");
+    };
+    let needs_oaa = r["option_as_array"].as_bool().unwrap_or(false);
+    if needs_oaa != cfg!(feature = "option-as-array") {
+        // the case was produced by the other feature build
+        let cfg = if needs_oaa { "gv-oaa" } else { "gv" };
+        match zvx::zv_bin(cfg) {
+            Some(bin) => {
+                let st = std::process::Command::new(&bin)
+                    .args(["C02", "--tier", args.tier.as_str(), "--replay", path])
+                    .status();
+                return match st {
+                    Ok(s) => s.code().unwrap_or(2),
+                    Err(e) => vcommon::machinery_failure(&format!("C02 replay: cannot run {bin}: {e}")),
+                };
+            }
+            None => vcommon::machinery_failure(&format!(
+                "C02 replay: this case needs the `{cfg}` build of zv (run through ./check, which provides ZV_BINS)"
+            )),
+        }
+    }
+    let ty = rv::parse_ty(sig).unwrap_or_else(|| vcommon::machinery_failure("C02 replay: bad signature"));
+    let cap = r["cap"].as_u64().unwrap_or(CAP as u64) as usize;
+    let vals = corpus_values(&ty, cap);
+    let Some(rvv) = vals.get(vidx as usize) else {
+        vcommon::machinery_failure("C02 replay: value index out of range");
+    };
+    println!(
+        "C02 replay: {} type {sig} value {} {} offset {off}",
+        if gv { "gvariant" } else { "dbus" },
+        rvv.show(),
+        if be { "BE" } else { "LE" }
+    );
+    let bank = zvx::bank_by_sig();
+    let mut acc = Acc::default();
+    let plan = Plan {
+        formats: &[gv],
+        endians: &[be],
+        offsets: &[off as usize],
+        only_route: r["route"].as_str(),
+        only_typed: r["typed"].as_str(),
+        option_only: false,
+        verbose: true,
+    };
+    run_value(&mut acc, &ty, vidx as usize, r["maybe_types"].as_bool().unwrap_or(false), rvv, &plan, &bank);
+    if acc.violations.is_empty() {
+        println!("observation: no clause violated on this case");
+        0
+    } else {
+        for v in &acc.violations {
+            println!("observation: clause={} {}", v.clause, v.detail);
+        }
+        1
+    }
+}
+
+pub fn main(args: &Args) -> i32 {
+    if let Some(p) = &args.replay {
+        return replay(args, p);
+    }
+    let child = args.extra.iter().any(|a| a == "--child");
+    let n = args.tier.pick(3, 4);
+    let offsets: Vec<usize> = (0..args.tier.pick(8, 16)).collect();
+    let gv_available = cfg!(feature = "gvariant");
+    let formats: Vec<bool> = if gv_available { vec![false, true] } else { vec![false] };
+    let corpus = zvx::corpus(n, gv_available, CAP);
+    let bank = zvx::bank_by_sig();
+    let items = &corpus.items;
+    let sink = zvx::Sink::new();
+    let plan = Plan {
+        formats: &formats,
+        endians: &[false, true],
+        offsets: &offsets,
+        only_route: None,
+        only_typed: None,
+        option_only: child,
+        verbose: false,
+    };
+    if child {
+        // only the `Option` bank entries, which need this build's `option-as-array`
+        if !cfg!(feature = "option-as-array") {
+            vcommon::machinery_failure("C02 --child must be the option-as-array build");
+        }
+        vcommon::par_for(items.len(), 1, |i| {
+            let (ty, vals) = &items[i];
+            if !bank.get(&ty.sig()).map(|v| v.iter().any(|o| o.name().contains("Option"))).unwrap_or(false) {
+                return;
+            }
+            let mut acc = Acc::default();
+            for (vidx, rvv) in vals.iter().enumerate() {
+                run_value(&mut acc, ty, vidx, gv_available, rvv, &plan, &bank);
+            }
+            sink.absorb(acc);
+        });
+        println!("ZVACC {}", sink.0.lock().unwrap().to_json());
+        return 0;
+    }
+
+    let report = Report::new("C02", args.tier, args.seed, "exploration");
+    report.set("types", json!(items.len()));
+    report.set("values", json!(items.iter().map(|(_, v)| v.len()).sum::<usize>()));
+    report.set("max_signature_nodes", json!(n));
+    report.set("offsets", json!(offsets.len()));
+    report.set("formats", json!(if gv_available { vec!["dbus", "gvariant"] } else { vec!["dbus"] }));
+    if !gv_available {
+        report.cap("built without the gvariant feature: D-Bus format only");
+    }
+    if corpus.capped_types > 0 {
+        report.cap(format!(
+            "value lists of {} of {} types were reduced (per-type cap {CAP}: base-choice over struct fields, first/last for variant payloads)",
+            corpus.capped_types,
+            items.len()
+        ));
+    }
+    vcommon::par_for(items.len(), 1, |i| {
+        let (ty, vals) = &items[i];
+        let mut acc = Acc::default();
+        for (vidx, rvv) in vals.iter().enumerate() {
+            run_value(&mut acc, ty, vidx, gv_available, rvv, &plan, &bank);
+        }
+        acc.flush(&report);
+    });
+    // Option<T> as an array of 0/1 elements (D-Bus): needs the option-as-array build
+    if cfg!(feature = "option-as-array") {
+        report.note("this build has option-as-array: Option<T> bank entries ran inline as arrays");
+    } else {
+        match zvx::zv_bin("gv-oaa") {
+            Some(bin) => {
+                let out = std::process::Command::new(&bin)
+                    .args(["C02", "--tier", args.tier.as_str(), "--child"])
+                    .output();
+                let parsed = out.ok().and_then(|o| {
+                    let text = String::from_utf8_lossy(&o.stdout).to_string();
+                    let line = text.lines().find_map(|l| l.strip_prefix("ZVACC "))?.to_string();
+                    let j: serde_json::Value = serde_json::from_str(&line).ok()?;
+                    Acc::from_json(&j)
+                });
+                match parsed {
+                    Some(a) => {
+                        report.set("option_as_array_child_evaluations", json!(a.evals));
+                        a.flush(&report);
+                    }
+                    None => vcommon::machinery_failure(&format!("C02: the option-as-array child {bin} did not report")),
+                }
+            }
+            None => report.cap("Option<T>-as-array cases not run: no gv-oaa build given in ZV_BINS (run through ./check)"),
+        }
+    }
+    // deterministic samples
+    zvx::with_fds(|fds| {
+        for (sig, idx) in [("a{sy}", 2usize), ("(yx)", 3), ("av", 3), ("a(t)", 2), ("mas", 2), ("a{yv}", 1)] {
+            let Some(ty) = rv::parse_ty(sig) else { continue };
+            if !gv_available && sig.contains('m') {
+                continue;
+            }
+            let vals = corpus_values(&ty, CAP);
+            let Some(v) = vals.get(idx) else { continue };
+            let Ok(norm) = zvx::normalize(v, fds) else { continue };
+            let val = rv::to_value(&norm, fds).unwrap();
+            let mut s = json!({"sig": sig, "value": norm.show()});
+            if !sig.contains('m') {
+                s["dbus_le_offset_3"] =
+                    json!(zvx::enc_dyn(&val, zvx::ctxt(false, false, 3)).map(|e| hex(e.bytes())).unwrap_or_default());
+            }
+            if gv_available {
+                s["gvariant_le_offset_3"] =
+                    json!(zvx::enc_dyn(&val, zvx::ctxt(true, false, 3)).map(|e| hex(e.bytes())).unwrap_or_default());
+            }
+            report.sample(s);
+        }
+    });
+    report.assume("equality is judged on the harness value tree: floats bitwise, dict entries as a multiset, `g` values modulo one pair of outer parentheses (zvariant's parsed Signature does not keep them)");
+    report.assume("the original of a zvariant::Dict is the Dict after construction (keys it considers equal are merged there — a Dict semantics question, not an encoding one)");
+    report.finish(
+        "one evaluation = (type ≤ N nodes, value from rv::values, format, endian, start offset, encode>decode route pair); non-trivial = container type or a start offset that forces padding, counted per distinct (type, value, format, endian, offset)",
+        true,
+    )
 }
